@@ -741,10 +741,15 @@ static void data_bar_print(FILE *fp,
     const double min_rem_plus = 0.5;
 
     if (acfval < 0.0) {
-        const uint16_t num_spaces = max_bar_width - num_filled - 1;
+        /* A full bar leaves no room for the partial character either */
+        const bool full = (num_filled >= max_bar_width);
+        const uint16_t num_spaces = (full) ? 0u : max_bar_width - num_filled - 1u;
         data_print_chars(fp, symbol_empty, num_spaces);
 
-        if (rem > min_rem_plus) {
+        if (full) {
+            /* Nothing in front of the bar */
+        }
+        else if (rem > min_rem_plus) {
             const int r = fputc(symbol_half, fp);
             cmb_assert_release(r == symbol_half);
         }
